@@ -427,7 +427,11 @@ class Stack:
             self.slisteners[i].reject_all = bool(flag)
         elif f == "queue_send":
             spec, dest = a
-            prot.announcer.queue_send(lib_entry(spec_entry(spec)), remote=None if dest is None else PEERS[dest])
+            remote = None if dest is None else PEERS[dest] if isinstance(dest, int) else (dest[0], dest[1])
+            prot.announcer.queue_send(lib_entry(spec_entry(spec)), remote=remote)
+        elif f == "register_method":
+            mid, kind = a
+            self.service.register_method(mid, self._handler(mid, kind))
         elif f == "svc_setup":
             self.svc_setup()
         elif f == "set_value":
